@@ -28,6 +28,11 @@ var c05flagOpts = []struct {
 	{zzref.TCPUrg, WithURG}, {zzref.TCPEce, WithECE}, {zzref.TCPCwr, WithCWR}, {zzref.TCPNs, WithNS},
 }
 
+type c05spelling struct {
+	name     string
+	src, dst bool // true = 16-byte net.IP
+}
+
 func c05ip(a [4]byte, sixteen bool) net.IP {
 	if sixteen {
 		return net.IPv4(a[0], a[1], a[2], a[3])
@@ -35,92 +40,104 @@ func c05ip(a [4]byte, sixteen bool) net.IP {
 	return net.IP{a[0], a[1], a[2], a[3]}
 }
 
+func c05fill(f *PacketFiller, r *scan.Request) (b []byte, err error) {
+	defer func() {
+		if p := recover(); p != nil {
+			err = fmt.Errorf("panic: %v", p)
+		}
+	}()
+	buf := gopacket.NewSerializeBuffer()
+	if err = f.Fill(buf, r); err != nil {
+		return nil, err
+	}
+	return append([]byte(nil), buf.Bytes()...), nil
+}
+
 func verifC05(c *drv.Ctx) {
 	if err := zzref.DecodeSelfTest(); err != nil {
 		c.Infra("%v", err)
 		return
 	}
-	mode := 0
-	var ports, ids [3][2]int // observed min/max per rand mode
-	for i := range ports {
-		ports[i], ids[i] = [2]int{1 << 20, -1}, [2]int{1 << 20, -1}
-	}
-	fill := func(f *PacketFiller, r *scan.Request) (b []byte, err error) {
-		defer func() {
-			if p := recover(); p != nil {
-				err = fmt.Errorf("panic: %v", p)
-			}
-		}()
-		buf := gopacket.NewSerializeBuffer()
-		if err = f.Fill(buf, r); err != nil {
-			return nil, err
-		}
-		return append([]byte(nil), buf.Bytes()...), nil
+	mode := 0            // how the next math/rand draws come out
+	var seenMM [3][4]int // per forced outcome: min/max source port, min/max IP id
+	for i := range seenMM {
+		seenMM[i] = [4]int{1 << 20, -1, 1 << 20, -1}
 	}
 	macs := [][2][]byte{
 		{{0x02, 0x00, 0x00, 0x00, 0x00, 0x01}, {0x00, 0x50, 0x56, 0xab, 0xcd, 0xef}},
 		{{0xfe, 0xff, 0xff, 0xff, 0xff, 0xff}, {0x00, 0x00, 0x00, 0x00, 0x00, 0x00}},
 	}
 	addrs := [][2][4]byte{{{10, 0, 0, 1}, {10, 0, 0, 2}}, {{0, 0, 0, 0}, {255, 255, 255, 255}}, {{172, 16, 254, 255}, {8, 8, 4, 4}}}
-	spell := []struct {
-		name     string
-		src, dst bool
-	}{{"4/4", false, false}, {"4/16", false, true}, {"16/16", true, true}}
+	spell := []c05spelling{{"4/4", false, false}, {"4/16", false, true}, {"16/16", true, true}}
 	flagSets := zzref.C05FlagSets()
+
+	mk := func(rm, mi int, sp c05spelling, ap [2][4]byte, port uint16, fl uint16) zzref.C05Case {
+		mp := macs[mi]
+		return zzref.C05Case{
+			Name: func() string {
+				return fmt.Sprintf("flags=%s,dport=%d,%s->%s,bytes=%s,macs=%d,%s", zzref.TCPFlagLetters(fl), port, zzref.IPString(ap[0]), zzref.IPString(ap[1]), sp.name, mi, zzref.C05RandNames[rm])
+			},
+			Eval: func() (fails []zzref.C05Fail, frames int, replay any) {
+				var opts []PacketFillerOption
+				for _, fo := range c05flagOpts {
+					if fl&fo.bit != 0 {
+						opts = append(opts, fo.opt())
+					}
+				}
+				req := &scan.Request{SrcIP: c05ip(ap[0], sp.src), DstIP: c05ip(ap[1], sp.dst), SrcMAC: mp[0], DstMAC: mp[1], DstPort: port}
+				w := zzref.C05Want{Link: zzref.LinkEthernet, SrcMAC: mp[0], DstMAC: mp[1], SrcIP: ap[0], DstIP: ap[1], Proto: 6, Transport: "tcp", TCPFlags: fl, DstPort: port}
+				mode = rm
+				eth, err1 := c05fill(NewPacketFiller(opts...), req)
+				mode = rm
+				vpn, err2 := c05fill(NewPacketFiller(append(opts[:len(opts):len(opts)], WithFillerVPNmode(true))...), req)
+				replay = map[string]string{"eth": zzref.DecHex(eth), "vpn": zzref.DecHex(vpn)}
+				if err1 != nil || err2 != nil {
+					return []zzref.C05Fail{{Field: "fill-error", Msg: fmt.Sprintf("Fill returned %v / %v", err1, err2)}}, 2, replay
+				}
+				f1, seen := zzref.C05Check(&w, eth)
+				w.Link = zzref.LinkRawIPv4
+				f2, _ := zzref.C05Check(&w, vpn)
+				fails = append(f1, f2...)
+				if !zzref.C05SameDatagram(eth, vpn) {
+					fails = append(fails, zzref.C05Fail{Field: "vpn-is-eth-minus-14", Msg: "the VPN-mode frame is not the Ethernet-mode frame without its 14-byte header and its padding to 60 bytes (same random draws)"})
+				}
+				mm := &seenMM[rm]
+				for i, v := range []int{int(seen.SrcPort), int(seen.IPID)} {
+					if v < mm[2*i] {
+						mm[2*i] = v
+					}
+					if v > mm[2*i+1] {
+						mm[2*i+1] = v
+					}
+				}
+				return fails, 2, replay
+			},
+		}
+	}
+	thorough := c.Thorough()
 	enumerate := func(yield func(zzref.C05Case) bool) {
 		for rm := 0; rm < 3; rm++ {
-			for mi, mp := range macs {
+			for mi := range macs {
 				for _, sp := range spell {
 					for _, ap := range addrs {
 						for _, port := range []uint16{1, 80, 32767, 32768, 65535} {
 							for _, fl := range flagSets {
-								rm, mi, mp, sp, ap, port, fl := rm, mi, mp, sp, ap, port, fl
-								cs := zzref.C05Case{
-									Name: func() string {
-										return fmt.Sprintf("flags=%s,dport=%d,%s->%s,bytes=%s,macs=%d,%s", zzref.TCPFlagLetters(fl), port, zzref.IPString(ap[0]), zzref.IPString(ap[1]), sp.name, mi, zzref.C05RandNames[rm])
-									},
-									Eval: func() (fails []zzref.C05Fail, frames int, replay any) {
-										var opts []PacketFillerOption
-										for _, fo := range c05flagOpts {
-											if fl&fo.bit != 0 {
-												opts = append(opts, fo.opt())
-											}
-										}
-										req := &scan.Request{SrcIP: c05ip(ap[0], sp.src), DstIP: c05ip(ap[1], sp.dst), SrcMAC: mp[0], DstMAC: mp[1], DstPort: port}
-										w := zzref.C05Want{Link: zzref.LinkEthernet, SrcMAC: mp[0], DstMAC: mp[1], SrcIP: ap[0], DstIP: ap[1], Proto: 6, Transport: "tcp", TCPFlags: fl, DstPort: port}
-										mode = rm
-										eth, err1 := fill(NewPacketFiller(opts...), req)
-										mode = rm
-										vpn, err2 := fill(NewPacketFiller(append(opts, WithFillerVPNmode(true))...), req)
-										replay = map[string]string{"eth": zzref.DecHex(eth), "vpn": zzref.DecHex(vpn)}
-										if err1 != nil || err2 != nil {
-											return []zzref.C05Fail{{Field: "fill-error", Msg: fmt.Sprintf("Fill returned %v / %v", err1, err2)}}, 2, replay
-										}
-										f1, seen := zzref.C05Check(&w, eth)
-										w.Link = zzref.LinkRawIPv4
-										f2, _ := zzref.C05Check(&w, vpn)
-										fails = append(f1, f2...)
-										if !zzref.C05SameDatagram(eth, vpn) {
-											fails = append(fails, zzref.C05Fail{Field: "vpn-is-eth-minus-14", Msg: "the VPN-mode frame is not the Ethernet-mode frame without its 14-byte header and its padding to 60 bytes (same random draws)"})
-										}
-										for _, o := range []struct {
-											v  int
-											mm *[2]int
-										}{{int(seen.SrcPort), &ports[rm]}, {int(seen.IPID), &ids[rm]}} {
-											if o.v < o.mm[0] {
-												o.mm[0] = o.v
-											}
-											if o.v > o.mm[1] {
-												o.mm[1] = o.v
-											}
-										}
-										return fails, 2, replay
-									},
-								}
-								if !yield(cs) {
+								if !yield(mk(rm, mi, sp, ap, port, fl)) {
 									return
 								}
 							}
+						}
+					}
+				}
+			}
+		}
+		if thorough {
+			// every destination port, 0 included, x {no flag, SYN, all nine} x the three forced draws
+			for port := 0; port <= 65535; port++ {
+				for _, fl := range []uint16{0, zzref.TCPSyn, 0x1ff} {
+					for rm := 0; rm < 3; rm++ {
+						if !yield(mk(rm, port%2, spell[port%3], addrs[port%3], uint16(port), fl)) {
+							return
 						}
 					}
 				}
@@ -137,12 +154,13 @@ func verifC05(c *drv.Ctx) {
 		c.Infra("harness crashed under vs.Run: %s\n%s", cr.Value, cr.Stack)
 	}
 	c.R.Rule = fmt.Sprintf("%d cases = 3 forced outcomes of every math/rand draw {0, n-1, n/2} x 2 MAC pairs x 3 address spellings (4/4, 4/16, 16/16 bytes) x 3 address pairs x dst port {1,80,32767,32768,65535} x all 512 TCP flag sets (fewest flags first); "+
-		"each case = real Fill in Ethernet mode and in VPN mode (2 frames); every case is distinct by construction; oracle = zzref decoders: requested MACs/IPs/port/flag set verbatim, IHL/data offset/total length consistent, "+
-		"IPv4 and TCP checksums (pseudo header) verify, VPN frame == Ethernet frame minus 14 bytes, IP id != 0, source port in 32768..60999", cases)
+		"thorough adds every destination port 0..65535 x {no flag, SYN, all nine} x the 3 forced outcomes; each case = real Fill in Ethernet mode and in VPN mode (2 frames); every case is distinct by construction; "+
+		"oracle = zzref decoders: requested MACs/IPs/port/flag set verbatim, IHL/data offset/total length consistent, IPv4 and TCP checksums (pseudo header) verify, "+
+		"VPN frame == Ethernet frame minus 14 bytes (and minus padding to 60), IP id != 0, source port in 32768..60999", cases)
 	c.Set("max_cases_in_space", cases)
 	for rm := 0; rm < 3; rm++ {
-		if ports[rm][1] >= 0 {
-			c.Set("observed_"+zzref.C05RandNames[rm], fmt.Sprintf("source port %d..%d, IP id %d..%d", ports[rm][0], ports[rm][1], ids[rm][0], ids[rm][1]))
+		if mm := seenMM[rm]; mm[1] >= 0 {
+			c.Set("observed_"+zzref.C05RandNames[rm], fmt.Sprintf("source port %d..%d, IP id %d..%d", mm[0], mm[1], mm[2], mm[3]))
 		}
 	}
 }
